@@ -284,3 +284,128 @@ def table_specs(draw, tier="quick", values="int", ids="simple", md=True,
     else:
         spec["history"] = []
     return spec
+
+
+# ---------------------------------------------------------------------------
+# HDF5 (BIOM 2.1) metadata domain: same categories on every ID, each category
+# homogeneous (all text / all numeric-or-bool / lists of non-empty text under
+# the reserved hierarchical categories)
+
+_H5TEXT = st.one_of(
+    st.text(_ASCII + " ;|", max_size=6),
+    st.text(st.characters(blacklist_categories=("Cs",),
+                          blacklist_characters="\x00"), max_size=8))
+_H5TEXT1 = st.one_of(
+    st.text(_ASCII + "_;", min_size=1, max_size=6),
+    st.text(st.characters(blacklist_categories=("Cs",),
+                          blacklist_characters="\x00"), min_size=1,
+            max_size=6))
+
+
+def h5_category_names():
+    return st.one_of(
+        st.sampled_from(["k", "pH", "a/b", "/lead", "trail/", "x y", "é",
+                         "Body Site", "a//b", "depth(m)"]),
+        st.text(st.characters(blacklist_categories=("Cs",),
+                              blacklist_characters="\x00"),
+                min_size=1, max_size=6)).filter(
+        lambda s: s not in (".", "..") and "@@SLASH@@" not in s and
+        s not in ("taxonomy", "Taxonomy", "KEGG_Pathways", "collapsed_ids"))
+
+
+@st.composite
+def h5_md(draw, n):
+    """None or a list of n dicts in the HDF5 domain."""
+    if n == 0 or draw(st.integers(0, 2)) == 0:
+        return None
+    cats = draw(st.lists(h5_category_names(), min_size=0, max_size=3,
+                         unique=True))
+    out = [{} for _ in range(n)]
+    for c in cats:
+        kind = draw(st.sampled_from(["text", "int", "float", "bool", "mixnum"]))
+        if kind == "text":
+            vals = draw(st.lists(_H5TEXT, min_size=n, max_size=n))
+        elif kind == "int":
+            vals = draw(st.lists(st.one_of(
+                st.integers(-5, 5), st.integers(-2 ** 63, 2 ** 63 - 1)),
+                min_size=n, max_size=n))
+        elif kind == "float":
+            vals = draw(st.lists(st.floats(allow_nan=False,
+                                           allow_infinity=False),
+                                 min_size=n, max_size=n))
+        elif kind == "bool":
+            vals = draw(st.lists(st.booleans(), min_size=n, max_size=n))
+        else:
+            vals = draw(st.lists(st.one_of(
+                st.integers(-2 ** 40, 2 ** 40),
+                st.floats(allow_nan=False, allow_infinity=False, width=32),
+                st.booleans()), min_size=n, max_size=n))
+        for d, v in zip(out, vals):
+            d[c] = v
+    for c in draw(st.lists(st.sampled_from(["taxonomy", "collapsed_ids"]),
+                           max_size=2, unique=True)):
+        for d in out:
+            d[c] = draw(st.lists(_H5TEXT1, min_size=1, max_size=4))
+    if not any(out):
+        return None
+    return out
+
+
+@st.composite
+def h5_table_specs(draw, tier="quick", allow_empty_axis=False, values="wild",
+                   ids="unicode"):
+    if allow_empty_axis and draw(st.integers(0, 5)) == 0:
+        n, m = draw(st.sampled_from([(0, 1), (0, 3), (2, 0), (1, 0)]))
+    else:
+        n, m = draw(shapes(tier))
+    rows = draw(matrices(n, m, values)) if n and m else \
+        [[] for _ in range(n)]
+    from . import ops
+    spec = {
+        "obs": draw(id_lists(n, ids, "o")) if n else [],
+        "samp": draw(id_lists(m, ids, "s")) if m else [],
+        "rows": rows,
+        "shape": [n, m],
+        "obs_md": draw(h5_md(n)),
+        "samp_md": draw(h5_md(m)),
+        "type": draw(st.sampled_from([None] + TYPES)),
+        "table_id": draw(st.one_of(st.none(), _H5TEXT1)),
+        "form": draw(st.sampled_from(FORMS)) if n and m else "dense",
+        "history": draw(ops.histories("any")) if n and m else [],
+    }
+    for ax in ("obs_gmd", "samp_gmd"):
+        spec[ax] = draw(st.one_of(st.none(), st.dictionaries(
+            st.sampled_from(["tree", "phylogeny", "graph", "rel é"]),
+            st.tuples(st.sampled_from(["newick", "text", "json"]),
+                      st.one_of(st.just("((a,b),c);"), _H5TEXT)).map(list),
+            min_size=1, max_size=2)))
+    return spec
+
+
+def build_h5(spec, rec=None):
+    """Like build() for HDF5-domain specs (empty axes, group metadata)."""
+    from biom import Table
+    from . import ops
+    n, m = spec["shape"]
+    kwargs = {}
+    if spec.get("type") is not None:
+        kwargs["type"] = spec["type"]
+    if spec.get("table_id") is not None:
+        kwargs["table_id"] = spec["table_id"]
+    for k, kw in (("obs_gmd", "observation_group_metadata"),
+                  ("samp_gmd", "sample_group_metadata")):
+        if spec.get(k):
+            kwargs[kw] = {a: tuple(b) for a, b in spec[k].items()}
+    if n and m:
+        data, kw = encode(spec["rows"], spec.get("form", "dense"))
+    else:
+        # a sparse matrix of the right shape: the dense-array converter
+        # deliberately maps (1,0)/(0,1) arrays to a 0x0 matrix
+        import scipy.sparse as sp
+        data, kw = sp.csr_matrix((n, m)), {}
+    t = Table(data, list(spec["obs"]), list(spec["samp"]),
+              _md_in(spec.get("obs_md")), _md_in(spec.get("samp_md")),
+              **kwargs, **kw)
+    if n and m:
+        t = ops.apply_history(t, spec.get("history", []), rec)
+    return t
